@@ -812,7 +812,9 @@ fn main() {
                         flags.push(format!("root-depends-on-unreachable-or-layout:{kind}"));
                     }
                     if !same_c && r2 == *r {
-                        if c2.skeleton() != c1.skeleton() {
+                        // F3 class only if the documented byte stream itself is the same for the two
+                        // contents; anything else is a field/record the root fails to bind.
+                        if c2.bytes(true, false) == c1.bytes(true, false) {
                             flags.push("state-root-preimage-not-uniquely-decodable".into());
                         } else {
                             flags.push(format!("root-misses-reachable-change:{kind}"));
@@ -838,10 +840,13 @@ fn main() {
                             flags.push("equal-content-different-root".into());
                         }
                         if c1 != c2 && a == b {
-                            if c1.skeleton() != c2.skeleton() {
+                            // known format-level ambiguity (F3) = different contents whose documented
+                            // byte streams coincide (necessarily with different section counts);
+                            // equal roots for different byte streams are a different failure.
+                            if c1.bytes(true, false) == c2.bytes(true, false) && c1.skeleton() != c2.skeleton() {
                                 flags.push("state-root-preimage-not-uniquely-decodable".into());
                             } else {
-                                flags.push("state-root-collision-same-skeleton".into());
+                                flags.push("state-root-collision-distinct-encodings".into());
                             }
                         }
                     }
